@@ -162,6 +162,13 @@ func writeCategoryNameFile(catName, dirName string) error {
 // AddTimeBucket adds a (possibly) new data item to a rootpath. Takes an existing catalog directory and
 // adds the new data item to that data directory. This is used only for a root category directory.
 func (d *Directory) AddTimeBucket(tbk *io.TimeBucketKey, f *io.TimeBucketInfo) (err error) {
+	// refuse a schema the file header cannot store faithfully, before anything is created on disk
+	if f != nil {
+		if err = f.CheckStorable(); err != nil {
+			return fmt.Errorf("bucket schema cannot be stored: %w", err)
+		}
+	}
+
 	d.Lock()
 	defer d.Unlock()
 
